@@ -105,6 +105,7 @@ Section Sound.
     - split; [exact Hg | discriminate].
     - split; [exact Hg|]. intros Hm Hi. eapply Hc; eauto.
     - split; [exact Hg|]. intros _. destruct Hg as (_ & _ & Hp & _). apply Hp. assumption.
+    - split; [exact Hg | discriminate].
     - split; [exact Hg|]. intros _. destruct Hg as (_ & _ & Hp & _). apply Hp. assumption.
   Qed.
 
@@ -364,4 +365,25 @@ Proof.
   intros pool prog Hs Hp srcs ws e0 g g' Hi Hw Hr.
   apply (ownership_sound srcs [] prog ws e0 g g' Hs (pool_chain_ok pool ws Hp Hi)); [|exact Hw|exact Hr].
   intros x i [].
+Qed.
+
+(* "cell = row[i]; cell.append(v)" on a FRESH copy of a source row: rejected (the cell may be shared with the source row),
+   and the semantics has a run in which it is: the source cell object 0 is rewritten although only the copy was indexed *)
+Definition ex_cell : stmt := block [SAssign 1 RSrc; SAssign 2 (RCopy 1); SAssign 3 (RCell 2); SSetItem 3].
+
+Example cell_mutation_rejected_and_harmful :
+  safe [] ex_cell = false /\
+  exists g', run_query [0] ex_cell [w_any] env_empty ex_g0 g' /\ g_heap g' 0 <> g_heap ex_g0 0.
+Proof.
+  split; [reflexivity|].
+  exists (g_write (g_alloc ex_g0 [7]) 0 [8]). split.
+  - exists ONorm, (env_set (env_set (env_set env_empty 1 0) 2 1) 3 0), (g_write (g_alloc ex_g0 [7]) 0 [8]).
+    split; [|left; reflexivity].
+    unfold ex_cell, block; cbn [fold_right].
+    eapply X_seq_n. { apply X_assign. apply E_src. left. reflexivity. }
+    eapply X_seq_n. { apply X_assign. eapply (E_copy _ _ _ 1 0 [7]); reflexivity. }
+    eapply X_seq_n. { apply X_assign. eapply (E_cell _ _ _ 2 1 0); [reflexivity | left; left; reflexivity]. }
+    eapply X_seq_n. { eapply (X_setitem _ _ 3 _ _ 0 [7] [8]); reflexivity. }
+    apply X_skip.
+  - cbn. discriminate.
 Qed.
